@@ -223,6 +223,16 @@ class _Recorder:
 
 RECORDER = _Recorder()
 
+_SAMPLED: set[str] = set()
+
+
+def sample_once(tag: str, wanted: bool, case):
+    """ evidence samples: one written-out case per route instead of the first four of the first sweep """
+    if not wanted or tag in _SAMPLED:
+        return None
+    _SAMPLED.add(tag)
+    return case
+
 _WORK = {"dir": None}
 
 
@@ -459,7 +469,9 @@ def run_id_case(ctx, case) -> None:
     srcs = list(case.get("src") or ["bare"] * len(ids))
     classes = collision_classes(ids) if len(ids) <= 16 else {"bulk"}  # the classification is quadratic
     nontrivial = bool(classes - {"contig-pattern", "versioned-shape"})
-    ctx.case(("ids", mode, allow_long, ids, names), nontrivial=nontrivial, sample=case)
+    ctx.case(("ids", mode, allow_long, ids, names), nontrivial=nontrivial,
+             sample=sample_once("ids-" + ("pool" if mode == "pool" else "pipeline"),
+                                nontrivial and len(ids) >= 3 and mode in ("pipeline", "pool") and len(classes) >= 3, case))
     ctx.count(f"mode:{mode}")
     ctx.count(f"long:{allow_long}")
     for cls in classes:
@@ -775,7 +787,8 @@ def run_gene_case(ctx, case) -> None:
     cds_keys = [strip_forbidden(s["locus_tag"] or s["gene"] or s["protein_id"] or "", GENE_FORBIDDEN | {"_"})
                 for s in specs if s["type"] == "CDS"]
     nontrivial = len(set(cds_keys)) < len(cds_keys)
-    ctx.case(("genes", case["path"], specs), nontrivial=nontrivial, sample=case)
+    ctx.case(("genes", case["path"], specs), nontrivial=nontrivial,
+             sample=sample_once("genes", nontrivial and len(specs) >= 3, case))
     dna = ("ATGGCAGCAGCAGCAGCAGCAGCAGCATAA" * 6)[:GENE_RECORD_LEN]
     if case["path"] == "add":
         record = Record(Seq(dna))
@@ -934,7 +947,8 @@ def _gff_text(case) -> str:
 
 def run_gff_case(ctx, case) -> None:
     keys = [strip_forbidden(g["locus_tag"] or g["name"] or g["id"], GENE_FORBIDDEN | {"_"}) for g in case["genes"]]
-    ctx.case(("gff", case["genes"]), nontrivial=len(set(keys)) < len(keys), sample=case)
+    ctx.case(("gff", case["genes"]), nontrivial=len(set(keys)) < len(keys),
+             sample=sample_once("gff", len(set(keys)) < len(keys), case))
     ctx.count("mode:gff")
     dna = ("ATGGCAGCAGCAGCAGCAGCAGCAGCATAA" * 6)[:GENE_RECORD_LEN]
     fasta = os.path.join(workdir(), "genes.fasta")
